@@ -89,6 +89,8 @@ func (r *refNotary) proofDefect(addr, kind string) string {
 	switch kind {
 	case "wrongkey":
 		return "wrong-key"
+	case "balshape":
+		return "signed-own-address-not-a-challenge"
 	case "other":
 		return "foreign-challenge"
 	case "cur":
@@ -335,6 +337,10 @@ func (m *model) Enabled() []string {
 	if m.thorough {
 		out = append(out, "Reject:XX", "Saved:c1:XX", "Saved:s1:X")
 	}
+	out = append(out, "Waiting:A:balshape", "TransactionsInDAG:A:balshape")
+	if m.thorough {
+		out = append(out, "Waiting:B:balshape")
+	}
 	for _, a := range []string{"A", "B"} {
 		c, ok := m.ref.chal[a]
 		if ok {
@@ -393,6 +399,10 @@ func (m *model) buildRead(ev string) *request {
 		case "wrongkey":
 			blob = m.ref.chal[p[1]].blob
 			signer = fx.X
+		case "balshape":
+			// cross-wired: byte for byte a valid Balance request of this address (the signed data is the address
+			// itself, no server challenge involved), sent to another read endpoint
+			blob = []byte(a.Addr)
 		}
 		return &request{rpc: p[0], sh: signedHash(signer, a.Addr, blob)}
 	case "Saved":
